@@ -87,7 +87,13 @@ CHECKS.update({
    text="Comments.tla defines (P) what must hold of the comments of gofmt(input) and output as attributed to top-level declarations by an independent observer - every declaration with unchanged syntax keeps exactly its doc / inner / trailing comments in order, header and package-clause comments are kept, no comment text becomes more frequent - and (I) the region arithmetic of astdiff.walkSlice with the comment clamping, for which TLC checks on every layout of up to 2 (thorough: 3) items with optional leading / trailing comments and gaps that replacing one item never deletes a comment associated with another. TLC draws files from a slot universe (declaration kind x doc style x inner comment x trailing comment x free-standing comment x touch kind, 16 headers; every (touched, untouched neighbour) pair in both orders and every header before a touched first declaration), which are rendered with unique comment texts, patched through the library API and the command with expression / statement-deleting / signature-changing / kind-changing / value-declaration changes (several per patch), and judged record by record by TLC; hand-written comment-heavy files x patches go through the same judgement.",
    technique="TLA+ region model of astdiff (TLC, exhaustive layouts) + TLA+ predicates over observer output evaluated by TLC on TLC-drawn files (trace validation)"),
 })
-ENGINE_OF = {"C14": "tla-concurrent", "C17": "tla-comments"}
+CHECKS.update({
+ "C08": dict(level="model_checking", ref="5/C08",
+   note="watchdogs in the harness (5 s per augmenter call, 10 s per Parse / Apply call, 20 s per command run) define 'promptly'; a worker process that dies is bisected down to the input; the concretisation of token classes; TLC checking Finder.tla and evaluating TraceCrash.tla. Parts (ii) and (iii) are exploration with the specification as seed generator and outcome monitor only",
+   text="Finder.tla is a PlusCal transcription of the pgo augmenter's token scanner (find.go: pkg, imports, topLevelDecl, funcDecl with the receiver loop, function, fieldList, ident, ellipsis; the cursor saturates at EOF like go/scanner); TLC checks termination under weak fairness plus two invariants for every token string of length <= 4 over 12 classes (thorough: 16 classes, and length <= 5 over 12) and prints the augmentations the model finds. Every string is concretised and run through the real augmenter and through patch.Parse on both sides of a patch under a watchdog; the outcome (ok / error with diagnostic, never panic / timeout / killed) is judged by TLC (TraceCrash.tla) and the augmentations are compared with the model's (drift). The same monitor judges grammar-generated ill-typed patches (a metavariable of either kind in 44 slot templates x 18 binding kinds, on the '+' and on the '-' side) and seeded truncations / token / byte / line mutations of the testdata and example patches crossed with Go files, a sample of them through the command.",
+   technique="PlusCal/TLA+ model of the scanner with termination checked by TLC + replay of every token string into the real code + TLC outcome monitor over generated ill-typed and mutated patches"),
+})
+ENGINE_OF = {"C14": "tla-concurrent", "C17": "tla-comments", "C08": "tla-finder"}
 
 NOT_YET = {
 }
@@ -144,6 +150,8 @@ def main():
              "serves_properties": ["C14"], "kind_free_text": "interleaving model of concurrent Apply calls; schedules replayed through gate hooks on real goroutines; multi-file runs vs solo runs"},
             {"name": "tla-comments", "path": "spec/Comments.tla spec/MCComments.tla spec/EmitComments.tla spec/TraceComments.tla harness/cmtobs.go lib/prop_c17.py corpus/comments/",
              "serves_properties": ["C17"], "kind_free_text": "interval model of astdiff's changed regions; slot universe of commented declarations replayed and judged by TLC on observer output"},
+            {"name": "tla-finder", "path": "spec/Finder.tla spec/TraceCrash.tla lib/prop_c08.py harness/api.go",
+             "serves_properties": ["C08"], "kind_free_text": "PlusCal transcription of the augmenter's token scanner (termination by TLC), token strings replayed into the real parser, outcome monitor over ill-typed and mutated patches"},
             {"name": "tla-history", "path": "spec/History.tla spec/EmitHistory.tla spec/TraceHistory.tla lib/prop_c09.py",
              "serves_properties": ["C09"], "kind_free_text": "state machine of the apply loop over change sequences vs chain-of-runs semantics; seven delivery routes and hook events validated by TLC"},
             {"name": "tla-rewrite", "path": "spec/Pattern.tla spec/RewriteUniverse.tla spec/MCRewrite.tla spec/TraceRewrite.tla harness/",
